@@ -80,8 +80,12 @@ def cmp_concrete(p, m):
 
 
 def cmp_int(p):
-    """mpf <op> int through the operators (mpf_convert_rhs / from_int): x = +-man*2^exp (exp concrete), n symbolic int"""
+    """mpf <op> int through the operators (mpf_convert_rhs / from_int): x = +-man*2^exp (exp concrete), n symbolic int.
+    With `fexp` the right-hand side is the Python float n * 2**fexp (dyadic float model; from_float)."""
     bc, exp, nbc, nneg, fn = p['bc'], p['exp'], p['nbc'], p['nneg'], p['fn']
+    fexp = p.get('fexp')
+    if fexp is not None:
+        return _cmp_float(p)
     top = max(bc + max(exp, 0), nbc + max(-exp, 0)) + 2
     ob = Ob(wbump(p, top + 64), timeout_s=p.get('_t', 60))
     xs = ob.mpf('x', bc, exp=exp)
@@ -102,11 +106,38 @@ def cmp_int(p):
     return finish(ob, ob.prove(outs, lambda v, st: good(v)))
 
 
+def _cmp_float(p):
+    from pysym.models import SFloat
+    bc, exp, nbc, nneg, fn, fexp = p['bc'], p['exp'], p['nbc'], p['nneg'], p['fn'], p['fexp']
+    lo = min(exp, fexp)
+    top = max(bc + exp - lo, nbc + fexp - lo) + 2
+    ob = Ob(wbump(p, top + 64), timeout_s=p.get('_t', 60))
+    xs = ob.mpf('x', bc, exp=exp)
+    na = ob.int('n_abs', 1 << (nbc - 1), (1 << nbc) - 1) if nbc > 1 else 1
+    n = V.neg(na) if nneg else na
+    mp = _ctx(53)
+    x = mp.make_mpf(xs)
+    meth = {'<': '__lt__', '<=': '__le__', '>': '__gt__', '>=': '__ge__', '==': '__eq__', '!=': '__ne__'}[fn]
+    outs = ob.run(getattr(mp.mpf, meth), [x, SFloat(n, fexp)])
+    Xv = zt(xs[1]) << (exp - lo)
+    X = z3.If(zt(xs[0]) == B(1), -Xv, Xv) - (zt(n) << (fexp - lo))
+    good = _want(fn, X)
+    return finish(ob, ob.prove(outs, lambda v, st: good(v)))
+
+
 def cmp_int_concrete(p, m):
     mp = _ctx(53)
     xs = mk_tuple(m, 'x', p['bc'], exp=p['exp'])
     na = m.get('n_abs', 1 if p['nbc'] == 1 else 0)
     n = -na if p['nneg'] else na
+    if p.get('fexp') is not None:
+        import math
+        f = math.ldexp(n, p['fexp'])
+        if Fraction(f) != Fraction(n) * Fraction(2) ** p['fexp']:
+            return True, 'model value is not a double'
+        r = PYOPS[p['fn']](mp.make_mpf(xs), f)
+        want = PYOPS[p['fn']](O.frac_of(xs), Fraction(f))
+        return r == want, 'mpf %r %s %r = %r, exact %r' % (xs, p['fn'], f, r, want)
     r = PYOPS[p['fn']](mp.make_mpf(xs), n)
     want = PYOPS[p['fn']](O.frac_of(xs), n)
     return r == want, 'mpf %r %s %r = %r, exact %r' % (xs, p['fn'], n, r, want)
